@@ -45,9 +45,19 @@ type sim struct {
 const chainOK = chain.ChainHash // "0001": supported, nodes and apps staked for it
 const chainNoNodes = "0002"     // supported by the protocol, nobody staked for it
 const chainUnsup = "0003"       // not in SupportedBlockchains
+const chainHex = "00a1"         // supported, nodes and apps staked for it; has a hex letter
+const chainHexUpper = "00A1"    // the same identifier in another spelling (hex decodes to the same bytes)
 
 func (s *sim) name(addrOrPub string) string {
 	if v, ok := s.names[strings.ToLower(addrOrPub)]; ok {
+		// a non-canonical hex spelling of a known key is a different TEXT (and a different claim
+		// store key): it gets the name of the key plus a spelling tag
+		if len(addrOrPub) == 64 && addrOrPub != strings.ToLower(addrOrPub) {
+			if addrOrPub == strings.ToUpper(addrOrPub) {
+				return v + "^U"
+			}
+			return v + "^M"
+		}
 		return v
 	}
 	if len(addrOrPub) > 10 {
@@ -72,15 +82,21 @@ func newSim(seed uint64, r *gen.R, t *gen.Trace, B, W, E int64) *sim {
 		g.Pocket.Params.ClaimSubmissionWindow = W
 		g.Pocket.Params.ClaimExpiration = E
 		g.Pocket.Params.SessionNodeCount = 5
-		g.Pocket.Params.SupportedBlockchains = []string{chainOK, chainNoNodes}
+		g.Pocket.Params.SupportedBlockchains = []string{chainOK, chainNoNodes, chainHex}
+		for i := range g.Nodes.Validators {
+			g.Nodes.Validators[i].Chains = append(g.Nodes.Validators[i].Chains, chainHex)
+		}
+		for i := range g.Apps.Applications {
+			g.Apps.Applications[i].Chains = append(g.Apps.Applications[i].Chains, chainHex)
+		}
 		for i := range g.Nodes.Validators {
 			// head-room above the minimum stake so that a replay-attack burn does not always force-unstake
 			g.Nodes.Validators[i].StakedTokens = g.Nodes.Validators[i].StakedTokens.Add(sdk.NewInt(int64(2000000 * (i % 3))))
 		}
 		// MaxRelays is recomputed from the stake at InitGenesis (1 relay per staked POKT with the default
-		// parameters): the first app may use 100000/1/5 = 20000 relays per session node, the second only 30/1/5 = 6
+		// parameters): the first app may use 100000/2/5 = 10000 relays per chain and session node, the second only 60/2/5 = 6
 		g.Apps.Applications[0].StakedTokens = sdk.NewInt(100000000000)
-		g.Apps.Applications[1].StakedTokens = sdk.NewInt(30000000)
+		g.Apps.Applications[1].StakedTokens = sdk.NewInt(60000000)
 		// one servicer pays rewards to a separate output address with a delegator
 		last := len(g.Nodes.Validators) - 1
 		g.Nodes.Validators[last].OutputAddress = w.Accts[0].Addr
@@ -275,14 +291,43 @@ type evSet struct {
 	paid        int
 	attempts    int
 	chal        bool // the leaves are challenge proofs (ChallengeProofInvalidData), not relay proofs
+	appText     string // how the header and the AATs spell the application public key ("" = canonical lower-case hex)
+}
+
+func (e *evSet) appKeyText() string {
+	if e.appText != "" {
+		return e.appText
+	}
+	return e.app.Pub.RawString()
 }
 
 func (e *evSet) header() pc.SessionHeader {
-	return pc.SessionHeader{ApplicationPubKey: e.app.Pub.RawString(), Chain: e.chainID, SessionBlockHeight: e.S}
+	return pc.SessionHeader{ApplicationPubKey: e.appKeyText(), Chain: e.chainID, SessionBlockHeight: e.S}
 }
 
-func mkAAT(app, client chain.Key) pc.AAT {
-	aat := pc.AAT{Version: "0.0.1", ApplicationPublicKey: app.Pub.RawString(), ClientPublicKey: client.Pub.RawString()}
+// spell renders a public key in canonical ("", lower case), upper-case ("U") or mixed ("M": only the
+// first hex letter raised) hex.  All three decode to the same key.
+func spell(k chain.Key, how string) string {
+	c := k.Pub.RawString()
+	switch how {
+	case "U":
+		return strings.ToUpper(c)
+	case "M":
+		for i, ch := range c {
+			if ch >= 'a' && ch <= 'f' {
+				return c[:i] + strings.ToUpper(c[i:i+1]) + c[i+1:]
+			}
+		}
+	}
+	return c
+}
+
+func mkAAT(app, client chain.Key, appText string) pc.AAT {
+	if appText == "" {
+		appText = app.Pub.RawString()
+	}
+	// the token names the application in the same spelling as the session header and is signed by the application key over that text
+	aat := pc.AAT{Version: "0.0.1", ApplicationPublicKey: appText, ClientPublicKey: client.Pub.RawString()}
 	sig, err := app.Priv.Sign(aat.Hash())
 	if err != nil {
 		panic(err)
@@ -303,7 +348,11 @@ func mkRelayProof(aat pc.AAT, client, node chain.Key, chainID string, S int64, e
 }
 
 func (s *sim) mkEvidence(id int, node, app chain.Key, chainID string, S int64, et pc.EvidenceType, nLeaves int, dup bool) *evSet {
-	aat := mkAAT(app, s.client)
+	return s.mkEvidenceSpelled(id, node, app, "", chainID, S, et, nLeaves, dup)
+}
+
+func (s *sim) mkEvidenceSpelled(id int, node, app chain.Key, appText, chainID string, S int64, et pc.EvidenceType, nLeaves int, dup bool) *evSet {
+	aat := mkAAT(app, s.client, appText)
 	var ps []pc.Proof
 	for i := 0; i < nLeaves; i++ {
 		s.entropy++
@@ -316,14 +365,14 @@ func (s *sim) mkEvidence(id int, node, app chain.Key, chainID string, S int64, e
 	}
 	s.entropy++
 	root, sorted := pc.GenerateRoot(S, ps)
-	return &evSet{id: id, node: node, app: app, chainID: chainID, S: S, et: et, proofs: sorted, root: root, total: int64(nLeaves), dup: dup}
+	return &evSet{id: id, node: node, app: app, chainID: chainID, S: S, et: et, proofs: sorted, root: root, total: int64(nLeaves), dup: dup, appText: appText}
 }
 
 // mkChallengeEvidence: every leaf is a ChallengeProofInvalidData reported by `node`: two session nodes
 // answered alike, a third (the minority, whose stake the proof burns) differently; each response is
 // signed by its servicer, each relay proof by the client.
 func (s *sim) mkChallengeEvidence(id int, node, app chain.Key, chainID string, S int64, et pc.EvidenceType, nLeaves int) *evSet {
-	aat := mkAAT(app, s.client)
+	aat := mkAAT(app, s.client, "")
 	var others []chain.Key
 	for _, k := range s.nodes {
 		if !k.Addr.Equals(node.Addr) {
@@ -402,8 +451,9 @@ func (s *sim) claimOracle(ctx sdk.Context, m pc.MsgClaim, dup, anteOK bool) stri
 						} else {
 							inSess = sess.SessionNodes.Contains(m.FromAddress)
 							// Session.Validate checks membership last: an InvalidSession error means every earlier check passed
+							// (the comparison of the header's key text with the application's key text is reported separately as canon=)
 							ve := sess.Validate(m.FromAddress, app, int(cnt))
-							if ve != nil && ve.Code() == pc.CodeInvalidSessionError {
+							if ve != nil && (ve.Code() == pc.CodeInvalidSessionError || ve.Code() == pc.CodeInvalidAppPubKeyError) {
 								ve = nil
 							}
 							sessRes = errCode(ve)
@@ -415,7 +465,11 @@ func (s *sim) claimOracle(ctx sdk.Context, m pc.MsgClaim, dup, anteOK bool) stri
 		fmt.Fprintf(&sb, " sctx=1 B=%d min=%d chain=%d node=%d app=%d max=%s chlim=%d sess=%s insess=%d E=%d", B, pk.MinimumNumberOfProofs(sessCtx),
 			b01(pk.IsPocketSupportedBlockchain(sessCtx, m.SessionHeader.Chain)), b01(nodeFound), b01(appFound), max.String(), b01(chlim), sessRes, b01(inSess), pk.ClaimExpiration(sessCtx))
 	}
-	fmt.Fprintf(&sb, " W=%d cB=%d", pk.ClaimSubmissionWindow(ctx), pk.BlocksPerSession(ctx))
+	// spelling of the header, judged here and not by pocket-core: the application key text is the
+	// canonical lower-case hex of the key it decodes to, and so is the chain identifier
+	h := m.SessionHeader
+	canon := h.ApplicationPubKey == strings.ToLower(h.ApplicationPubKey) && h.Chain == strings.ToLower(h.Chain)
+	fmt.Fprintf(&sb, " canon=%d W=%d cB=%d", b01(canon), pk.ClaimSubmissionWindow(ctx), pk.BlocksPerSession(ctx))
 	return sb.String()
 }
 
